@@ -73,6 +73,10 @@ def plan(tier, seed):
 
 # ---------------------------------------------------------------------- steps
 def gen_step(r, npool):
+    if r.random() < 0.08:
+        # a URL nobody has seen before (unique userinfo/host/port): every module-level memo misses, fills and - once it is full - evicts,
+        # in several threads at once
+        return ("fresh", r.randrange(1 << 40), r.choice(["ctor", "encoded", "build", "derive"]))
     k = r.random()
     i = r.randrange(npool)
     if k < 0.42:
@@ -158,6 +162,18 @@ def execute(step, pool, quoters):
             if m == "div":
                 return x / args[0]
             return getattr(x, m)(*args)
+        if op == "fresh":
+            n, how = step[1], step[2]
+            text = f"http://u{n:x}:p%20w@h{n % 100003}.ex{n % 7}ample.com:{1 + n % 65000}/p{n % 13}?k={n % 5}#f"
+            if how == "ctor":
+                u = URL(text)
+            elif how == "encoded":
+                u = URL(text, encoded=True)
+            elif how == "build":
+                u = URL.build(scheme="http", user=f"u{n:x}", password="p w", host=f"h{n % 100003}.ex{n % 7}ample.com", port=1 + n % 65000, path=f"/p{n % 13}")
+            else:
+                u = URL(text).with_user(f"v{n:x}").with_port(2 + n % 65000)
+            return (u.host, u.explicit_port, u.raw_user, u.password, u.authority, str(u), str(u.origin()), str(u.with_host(f"::{n % 65535:x}")))
         if op == "ctor":
             return URL(step[1], encoded=step[2])
         if op == "build":
